@@ -591,3 +591,7 @@ for _p in ("C03", "C09", "C18"):
     PROPS[_p]._v = PROPS[_p]._v + [V_LEXTOKEN]
     PROPS[_p].assumptions = PROPS[_p].assumptions + [
         "V-lextoken: the sub-lexers are external with uninterpreted results (skip_end, sem_word, sem_int, sem_str, sem_symbol); the END position of a token span is not under contract"]
+
+
+# C20: every sub-pattern (also the `..rest` collector) is bound with the statement's own kind (declaration vs assignment)
+PROPS["C20"]._v = PROPS["C20"]._v + [u for u in ALL_V if u.name in ("object_bind", "list_bind")]
